@@ -2,7 +2,7 @@
    Only statements (pinned), non-vacuity examples, the refutation witness for the known
    deviation F3 and Print Assumptions. Model: Factory/Model.v; proofs: Factory/Route.v. *)
 From Coq Require Import List NArith Bool.
-From RV Require Import Factory.Model Factory.Scenario Factory.Oracle Factory.Route Factory.RoutePool Factory.RouteUniq Factory.RouteCouple.
+From RV Require Import Factory.Model Factory.Scenario Factory.Oracle Factory.Route Factory.RoutePool Factory.RouteUniq Factory.RouteCouple Factory.RouteOrder.
 Import ListNotations.
 Local Open Scope N_scope.
 
@@ -98,6 +98,26 @@ Theorem C14_held_job_is_recorded : forall c n d rls ls a x j,
   exists p, lookup (a_wid x) (pool w) = Some p /\ w_aid p = a /\ has_pending p (j_key j) = true.
 Proof. exact held_job_is_pending. Qed.
 
+(* (8) key order, slot level (C14_key_order_partial): the pipeline of a worker slot -- mailbox of
+   the actor behind it, then message_queue -- is FIFO under every worker-level operation of the
+   factory: a new job enters at its end (or is shed), a completion only advances it, and the
+   replacement of a dead worker continues with the predecessor's queue in the same order.
+   By (5) all pending jobs of a key sit in ONE slot and by (7) what an actor holds belongs to the
+   slot it stands behind; the composition into a statement about the global start order of a key
+   is OPEN (see below). *)
+Theorem C14_key_order_partial_enqueue : forall t p acts out j,
+  Subseq (pipe (enqueue_job t (p, acts, out) j)) (pipe (p, acts, out) ++ [j_id j]).
+Proof. exact enqueue_job_fifo. Qed.
+
+Theorem C14_key_order_partial_complete : forall t p acts out k,
+  Subseq (pipe (worker_complete t (p, acts, out) k)) (pipe (p, acts, out)).
+Proof. exact worker_complete_fifo. Qed.
+
+Theorem C14_key_order_partial_replace : forall t p acts out a,
+  mb_of acts a = [] ->
+  Subseq (pipe (replace_worker t (p, acts, out) a)) (map j_id (w_queue p)).
+Proof. exact replace_worker_fifo. Qed.
+
 (* actor side: a worker actor whose handler is busy does not take another job *)
 Theorem C14_actor_busy_takes_nothing : forall a w x,
   lookup a (actors w) = Some x -> a_run x <> None -> w_start a w = w.
@@ -106,7 +126,11 @@ Proof. exact one_at_a_time_actor_side. Qed.
 (* OPEN (stated, not proved in this round):
    C14_affinity for STICKY routing (key-persistent: proved, (6)): needs uniqueness of the worker
      processing a key, which in turn needs the queuer invariant below.
-   C14_key_order: with key-persistent routing the EStart events of one key follow dispatch order.
+   C14_key_order (global): with key-persistent routing the EStart events of one key follow dispatch order.
+     Proved so far: slot-level FIFO (8), one owner per key (5), coupling (7). Still needed: "factory queue
+     non-empty => pool empty" for worker-queueing routers (true since aa3c2d4; needs the pool-domain
+     invariant {0..pool_size-1} in pool and h k n < n) and the per-key subsequence invariant
+     started ++ slot pipeline ++ factory queue ++ inbox  is a subsequence of the dispatch order.
    C14_queuer_no_idle_backlog (full): fq <> [] -> every idle non-draining pool worker is listed in `avail`.
    (one job at a time for the REAL slots -- mailbox + handler of a worker's actor -- is proved under the
      no-stale-completion hypothesis as C13_worker_holds_one in Properties/C13.v.)
@@ -210,3 +234,6 @@ Print Assumptions C14_actor_busy_takes_nothing.
 Print Assumptions C14_key_persistent_one_owner.
 Print Assumptions C14_affinity.
 Print Assumptions C14_held_job_is_recorded.
+Print Assumptions C14_key_order_partial_enqueue.
+Print Assumptions C14_key_order_partial_complete.
+Print Assumptions C14_key_order_partial_replace.
